@@ -41,6 +41,8 @@ def replay(ob):
     dt = rp['dtype']
     pat = rp['alias']
     size = int(m.get('X.size', 120))
+    if size > 400000:
+        return {'reproduced': False, 'detail': 'no native concretisation: size %d too large to allocate in the replay' % size}
     rng = np.random.default_rng(0)
     import itertools
     labels = sorted(set(pat))
